@@ -95,6 +95,7 @@ type caseRec struct {
 	FlushPct   int    `json:"flush_pct,omitempty"`
 	JitterPct  int    `json:"jitter_pct,omitempty"`
 	DoubleStop bool   `json:"double_stop,omitempty"`
+	SameObj    bool   `json:"same_object,omitempty"` // coldstart: all first Enqueues on one object
 	CaseSeed   int64  `json:"case_seed"`
 	// observations of a violating run
 	Fingerprint string   `json:"fingerprint,omitempty"`
@@ -665,6 +666,41 @@ func inStopWait(g gdump.G) bool {
 	return g.Parked() && g.State != "select" && g.Has("sync.(*WaitGroup).Wait") && g.Has("kvstore.(*BatchedWriter).StopBatchWriter")
 }
 
+// applyNoWriterRules applies R1/R2 to a snapshot that shows no writer goroutine. The decision is
+// deferred while any actor is still executing (not parked) inside Enqueue: the caller that starts
+// the writer is in Enqueue from before the writer goroutine exists until after it was created, so
+// "no writer in the snapshot" could otherwise mean "not created yet" during a cold start.
+func (s *scen) applyNoWriterRules(gs []gdump.G, stopHung *bool) {
+	for _, a := range s.actors {
+		if a.role == "main" || a.hung != "" || closed(a.done) {
+			continue
+		}
+		if g, found := gdump.Find(gs, a.gid.Load()); found && g.Has("kvstore.(*BatchedWriter).Enqueue") && !g.Parked() {
+			return
+		}
+	}
+	for _, a := range s.actors {
+		if a.role == "main" || a.hung != "" || closed(a.done) {
+			continue
+		}
+		g, found := gdump.Find(gs, a.gid.Load())
+		if !found {
+			continue
+		}
+		switch {
+		case inEnqueueSend(g):
+			a.hung, a.dump = fpEnqBlocked, g.Raw
+		case inStopWait(g):
+			a.hung, a.dump = fpStopBlocked, g.Raw
+			*stopHung = true
+		case *stopHung && strings.HasPrefix(g.State, "sync.Mutex.Lock") && g.Has("kvstore.(*BatchedWriter).StopBatchWriter"):
+			// a second Stop queued on startStopMutex behind a Stop that rule R2 decided: it
+			// waits for ever as a consequence, no finding of its own
+			a.hung = "behind-blocked-stop"
+		}
+	}
+}
+
 // finishWait waits until every actor has returned or is blocked for ever by a
 // permanence rule, and the writer goroutine is gone. Rules (one consistent
 // snapshot each; autoStartOnce guarantees that no second writer can ever be
@@ -773,26 +809,7 @@ func (s *scen) finishWait() (ok bool) {
 			}
 		}
 		if !wa {
-			for _, a := range s.actors {
-				if a.role == "main" || a.hung != "" || closed(a.done) {
-					continue
-				}
-				g, found := gdump.Find(gs, a.gid.Load())
-				if !found {
-					continue
-				}
-				switch {
-				case inEnqueueSend(g):
-					a.hung, a.dump = fpEnqBlocked, g.Raw
-				case inStopWait(g):
-					a.hung, a.dump = fpStopBlocked, g.Raw
-					stopHung = true
-				case stopHung && strings.HasPrefix(g.State, "sync.Mutex.Lock") && g.Has("kvstore.(*BatchedWriter).StopBatchWriter"):
-					// a second Stop queued on startStopMutex behind a Stop that rule R2 decided: it
-					// waits for ever as a consequence, no finding of its own
-					a.hung = "behind-blocked-stop"
-				}
-			}
+			s.applyNoWriterRules(gs, &stopHung)
 		}
 		if !w.pause() {
 			var sb strings.Builder
@@ -1146,6 +1163,8 @@ func runCase(c *vf.Ctx, cs *caseRec) (fps []string, ok bool) {
 		return runEnqStop(c, cs)
 	case "dupflush":
 		return runDupFlush(c, cs)
+	case "coldstart":
+		return runColdStart(c, cs)
 	case "stress":
 		return runStress(c, cs)
 	}
@@ -1322,6 +1341,106 @@ func runDupFlush(c *vf.Ctx, cs *caseRec) ([]string, bool) {
 		return nil, false
 	}
 	return s.report("dupflush/" + served), !s.abortAfter
+}
+
+// runColdStart: a fresh BatchedWriter whose very first Enqueue calls are made concurrently by
+// 2-8 producers released together (distinct objects, or one shared object), with Gosched and
+// yield-hook jitter; each may follow up with a few more Enqueues. Stop is invoked only after all
+// producers have returned, so every one of these Enqueues returned before Stop was invoked and
+// must be written, committed and acknowledged before Stop returns (checks 1-4 unchanged).
+func runColdStart(c *vf.Ctx, cs *caseRec) ([]string, bool) {
+	nobj := cs.Producers
+	if cs.SameObj {
+		nobj = 1
+	}
+	s := newScen(c, cs, nobj)
+	cur.Store(s)
+	defer cur.Store(nil)
+	s.self("main")
+	start := make(chan struct{})
+	var ready atomic.Int32
+	var prods []*actor
+	for p := 0; p < cs.Producers; p++ {
+		p := p
+		prods = append(prods, s.spawn("producer", cs.CaseSeed*131+int64(p)+1, start, func(a *actor) {
+			ready.Add(1)
+			for ready.Load() < int32(cs.Producers) {
+				runtime.Gosched()
+			}
+			for i := a.rng.Intn(3); i > 0; i-- {
+				runtime.Gosched()
+			}
+			s.enqueue(a, s.objs[p%nobj])
+			for i := a.rng.Intn(3); i > 0; i-- {
+				s.enqueue(a, s.objs[a.rng.Intn(nobj)])
+			}
+		}))
+	}
+	close(start)
+	w := waiter{m: s.m}
+	stopHung := false
+	for {
+		pending := false
+		for _, a := range prods {
+			if a.hung == "" && !closed(a.done) {
+				pending = true
+			}
+		}
+		if !pending {
+			break
+		}
+		if gs := s.snapshot(); !writerAlive(gs) {
+			s.applyNoWriterRules(gs, &stopHung)
+		}
+		if !w.pause() {
+			c.Inconclusive(cs.name() + ": case guard expired waiting for the first Enqueue calls to return")
+			return nil, false
+		}
+	}
+	c.Count("coldstart_rounds", 1)
+	hung := false
+	for _, a := range prods {
+		hung = hung || a.hung != ""
+	}
+	if !hung && !s.probeWriter() {
+		return nil, false
+	}
+	s.spawn("stopper", 0, nil, func(a *actor) { s.stop(a) })
+	if !s.finishWait() {
+		return nil, false
+	}
+	// first-Enqueue overlaps by ticks: producers whose first Enqueue interval intersects another one's
+	if !cs.Bare {
+		type iv struct{ call, ret int }
+		first := map[int]*iv{}
+		for t, e := range s.m.copyEvs() {
+			switch e.K {
+			case 'E':
+				if first[e.P] == nil {
+					first[e.P] = &iv{t, -1}
+				}
+			case 'e':
+				if f := first[e.P]; f != nil && f.ret < 0 {
+					f.ret = t
+				}
+			}
+		}
+		n := 0
+		for p, a := range first {
+			for q, b := range first {
+				if p != q && a.ret >= 0 && b.ret >= 0 && a.call < b.ret && b.call < a.ret {
+					n++
+					break
+				}
+			}
+		}
+		c.Count("coldstart_first_enqueues", len(first))
+		c.Count("coldstart_first_enqueues_overlapping_another", n)
+		if n > 0 {
+			c.Count("coldstart_rounds_with_overlap", 1)
+		}
+	}
+	return s.report(fmt.Sprintf("cold/p%d/same=%v", cs.Producers, cs.SameObj)), !s.abortAfter
 }
 
 func shortPoint(p string) string {
@@ -1555,6 +1674,21 @@ func genCases(c *vf.Ctx) (plain, race []caseRec) {
 			plain = append(plain, enqstop(cf))
 		}
 	}
+	coldstart := func(cf cfg) caseRec {
+		cs := mk("coldstart", cf)
+		cs.Producers = 2 + rng.Intn(7)
+		cs.SameObj = rng.Intn(4) == 0
+		cs.JitterPct = []int{0, 10, 40}[rng.Intn(3)]
+		if lowParallelism && cs.TimeoutNs <= 1 {
+			cs.Producers = min(cs.Producers, 3)
+		}
+		return cs
+	}
+	for rep := c.Pick(4, 60); rep > 0; rep-- {
+		for _, cf := range cfgs {
+			plain = append(plain, coldstart(cf))
+		}
+	}
 	dupflush := func(cf cfg) caseRec {
 		cs := mk("dupflush", cf)
 		cs.InFlight = rng.Intn(3)
@@ -1577,6 +1711,7 @@ func genCases(c *vf.Ctx) (plain, race []caseRec) {
 			race = append(race, asRace(gated(cf, pointA), false), asRace(gated(cf, pointB), false))
 			race = append(race, asRace(enqstop(cf), rep%2 == 0), asRace(enqstop(cf), true))
 			race = append(race, asRace(dupflush(cf), false))
+			race = append(race, asRace(coldstart(cf), false), asRace(coldstart(cf), true))
 		}
 	}
 	for n := c.Pick(800, 9000); n > 0; n-- {
@@ -1609,7 +1744,14 @@ func runShard(c *vf.Ctx, mode string, cases []caseRec, raceBuild bool, timeout t
 
 func runShardOnce(c *vf.Ctx, mode string, cases []caseRec, raceBuild bool, timeout time.Duration) (resume int) {
 	in, _ := json.Marshal(batch{Cases: cases})
-	res := c.RunChild(vf.ChildOpts{Name: mode, Race: raceBuild, Timeout: timeout, Stdin: in})
+	var env []string
+	if lowParallelism {
+		// With fewer CPUs than goroutines that matter (writer, callers, poller) a writer spinning
+		// on a 0/1ns time-out keeps its P for whole scheduler time slices and every hand-over
+		// costs ~10 ms. More Ps than CPUs let the OS scheduler interleave the threads instead.
+		env = []string{"GOMAXPROCS=4"}
+	}
+	res := c.RunChild(vf.ChildOpts{Name: mode, Race: raceBuild, Timeout: timeout, Stdin: in, Env: env})
 	for _, r := range res.Records {
 		if r.Kind == "resume" {
 			json.Unmarshal(r.V, &resume)
@@ -1759,7 +1901,7 @@ func run(c *vf.Ctx) {
 		replay(c)
 		return
 	}
-	c.SetRule("one evaluation = one run of the real BatchedWriter (mapdb behind a logging wrapper) whose merged event log is checked after all callers returned or were decided blocked for ever and the writer goroutine exited; runs are gated (producer parked at bw.enqueue.afterRunningCheck / bw.enqueue.beforeSend while StopBatchWriter completes or parks; queue {0,1,2,256} x batch {1,2,5,1000} x time-out {0,1ns,1ms,20ms,-1ms} x 0-3 objects in flight x release early/late), 'Enqueue immediately followed by Stop', duplicate-Enqueue-retracts-while-a-Flush-is-served (one Enqueue held at beforeSend, a duplicate held inside BatchWriteScheduled after it found the flag set), and seeded stress (1-8 producers, 1-4 objects, Flush, jittered yields, Stop at a random operation count), in plain and -race builds; distinct_nontrivial counts distinct (scenario, gate state, queue class, order of yield/flag/send-return/Stop-return/BatchWrite/Commit/Done/Cancel/Batched events from Stop's invocation on) of runs in which at least one Enqueue overlapped StopBatchWriter or an accepted object was still unwritten when Stop was invoked")
+	c.SetRule("one evaluation = one run of the real BatchedWriter (mapdb behind a logging wrapper) whose merged event log is checked after all callers returned or were decided blocked for ever and the writer goroutine exited; runs are gated (producer parked at bw.enqueue.afterRunningCheck / bw.enqueue.beforeSend while StopBatchWriter completes or parks; queue {0,1,2,256} x batch {1,2,5,1000} x time-out {0,1ns,1ms,20ms,-1ms} x 0-3 objects in flight x release early/late), 'Enqueue immediately followed by Stop', duplicate-Enqueue-retracts-while-a-Flush-is-served (one Enqueue held at beforeSend, a duplicate held inside BatchWriteScheduled after it found the flag set), cold start (fresh writer, 2-8 producers released together for their very first Enqueue, Stop only after all returned), and seeded stress (1-8 producers, 1-4 objects, Flush, jittered yields, Stop at a random operation count), in plain and -race builds; distinct_nontrivial counts distinct (scenario, gate state, queue class, order of yield/flag/send-return/Stop-return/BatchWrite/Commit/Done/Cancel/Batched events from Stop's invocation on) of runs in which at least one Enqueue overlapped StopBatchWriter or an accepted object was still unwritten when Stop was invoked")
 	plain, race := genCases(c)
 	c.Count("cases_generated_plain", len(plain))
 	c.Count("cases_generated_race", len(race))
@@ -1805,6 +1947,8 @@ func run(c *vf.Ctx) {
 	c.Require("flush_calls", par(100))
 	c.Require("runs_stress", par(c.Pick(1700, 17000)))
 	c.Require("dupflush_windows_entered", c.Pick(200, 3000))
+	c.Require("coldstart_rounds", c.Pick(400, 6000))
+	c.Require("coldstart_rounds_with_overlap", par(c.Pick(100, 1500)))
 	c.Require("writer_probes_seen", par(c.Pick(3000, 40000))) // blindness self-check: the rules did identify writer goroutines
 	for _, t := range timeouts {
 		c.Require("runs_gated_timeout="+t.String(), c.Pick(250, 3500))
